@@ -854,6 +854,61 @@ FIELDS += [
     _F("Control", "threshold.Junction", "CONTROLS", "_condition._threshold", "_conditional_control.3", ["isa:Junction"], ["Junction"]),
 ]
 
+# precision the specification REQUIRES of a written slot (a writer edit that prints fewer digits breaks inp_precision_meets):
+# need: 'gN' N significant digits, 'fK' K decimals (in file units), 'repr' exact, 'int'
+_REQ = {
+    "JUNCTIONS": {"elevation": "g11", "demand_timeseries_list.base_demand_list()[0]": "g11"},
+    "RESERVOIRS": {"head_timeseries.base_value": "g11"},
+    "TANKS": {k: "g11" for k in ("elevation", "init_level", "min_level", "max_level", "diameter", "min_vol")},
+    "PIPES": {k: "g11" for k in ("length", "diameter", "roughness", "minor_loss")},
+    "PUMPS": {"power": "repr", "speed_timeseries.base_value": "g11"},
+    "VALVES": {"diameter": "g11", "initial_setting": "g11", "minor_loss": "g11"},
+    "EMITTERS": {"emitter_coefficient": "repr"},
+    "CURVES": {"points[][0]": "f6", "points[][1]": "f6"},
+    "PATTERNS": {"multipliers[]": "f6"},
+    "ENERGY": {"energy_price": "f4", "options.energy.global_price": "f4", "options.energy.global_efficiency": "f4", "options.energy.demand_charge": "f4"},
+    "STATUS": {"initial_setting": "g7"},
+    "DEMANDS": {"demand_timeseries_list[].base_value": "repr"},
+    "QUALITY": {"initial_quality": "repr"},
+    "REACTIONS": {"bulk_coeff": "f4", "wall_coeff": "f4", "options.reaction.bulk_coeff": "f4", "options.reaction.wall_coeff": "f4",
+                  "options.reaction.limiting_potential": "f4", "options.reaction.roughness_correl": "f4",
+                  "options.reaction.bulk_order": "int", "options.reaction.wall_order": "int", "options.reaction.tank_order": "int"},
+    "SOURCES": {"strength_timeseries.base_value": "repr"},
+    "MIXING": {"mixing_fraction": "repr"},
+    "OPTIONS": dict({"options.hydraulic." + k: "g11" for k in ("specific_gravity", "viscosity", "trials", "accuracy", "checkfreq", "maxcheck", "demand_multiplier",
+                                                               "emitter_exponent", "damplimit", "headerror", "flowchange")},
+                    **{"options.quality.diffusivity": "g11", "options.quality.tolerance": "g11", "options.hydraulic.minimum_pressure": "f2",
+                       "options.hydraulic.required_pressure": "f2", "options.hydraulic.pressure_exponent": "repr", "options.hydraulic.unbalanced_value": "int"}),
+    "COORDINATES": {"coordinates[0]": "f9", "coordinates[1]": "f9"},
+    "VERTICES": {"_vertices[][0]": "f9", "_vertices[][1]": "f9"},
+    "RULES": {"local:condition._repr_value()": "g6", "local:action._repr_value()": "g6"},
+    "CONTROLS": {"_condition._threshold": "repr", "_then_actions[0]._value": "repr"},
+}
+
+
+def _need(n):
+    return ("sig", int(n[1:])) if n[0] == "g" else ("fixed", int(n[1:])) if n[0] == "f" else (n,)
+
+
+def precision_requirements():
+    """[(description, wsec, w, wtoks, need)] for every numeric slot of the specification"""
+    out = []
+    for (cls, key, wsec, w, wt, rsec, r, rt) in FIELDS:
+        n = _REQ.get(wsec, {}).get(w)
+        if wsec == "TIMES" and w.startswith("_sec_to_string"):
+            n = "int"
+        if n is None:
+            continue
+        wt2 = tuple(t for t in wt)
+        if wsec == "RULES":
+            # the value before it is formatted is also a row (placeholder of the clause): only the formatted one counts
+            pass
+        item = ("%s.%s" % (cls, key), wsec, w, wt2, _need(n))
+        if item[1:] not in [o[1:] for o in out]:
+            out.append(item)
+    return out
+
+
 # conversions that only the READER performs (accepted input that WNTR's own writer never produces): (sec, destination, guard)
 READER_ONLY = [("STATUS", "initial_setting", ("isa:Valve",))]  # a numeric valve setting in [STATUS]; the writer puts valve settings into [VALVES]
 
@@ -891,7 +946,7 @@ def gen_schema_inp_lean(wntr, rows, kw):
     from wntr.epanet.util import HydParam, QualParam
     out = ["-- GENERATED by harness/props/c12.py from wntr/epanet/io.py (ast).  Do not edit.",
            "-- `fields` / `outside` are the hand-written specification of harness/props/c12.py carried over verbatim.",
-           "import WntrModel.Model.InpText", "namespace Wntr.InpSchema.Gen", "open Wntr.InpSchema", ""]
+           "import WntrModel.Model.InpText", "namespace Wntr.InpSchema.Gen", "open Wntr.InpSchema Wntr.InpFormat", ""]
     strings = []
 
     def sid(x):
@@ -914,9 +969,9 @@ def gen_schema_inp_lean(wntr, rows, kw):
         else:
             cv = "none"
         toks = [x for x in r["ctx"].split("|") if x]
-        t = "  { sec := %s, write := %s, name := %s, conv := %s, fmt := %s, toks := %s, const := %s, ids := %s }" % (
+        t = "  { sec := %s, write := %s, name := %s, conv := %s, fmt := %s, toks := %s, const := %s, spec := %s, ids := %s }" % (
             _ls(r["sec"]), "true" if r["dir"] == "w" else "false", _ls(r["name"]), cv, _ls(r["fmt"]),
-            _ll(toks), "true" if r["const"] else "false", ids(r["sec"], r["name"], toks))
+            _ll(toks), "true" if r["const"] else "false", spec_lean(fmt_spec(r["fmt"])) if r["dir"] == "w" else ".text", ids(r["sec"], r["name"], toks))
         if t not in [u[1] for u in uniq]:
             uniq.append((r, t))
     out.append("def table : Table := [")
@@ -938,6 +993,9 @@ def gen_schema_inp_lean(wntr, rows, kw):
         out.append("def %s : List Field := [\n%s]\n" % (nm, ",\n".join(fl[i:i + 60])))
     out.append("def fields : List Field := %s\n" % " ++ ".join(names))
     out.append("def outside : List (String × String) := [\n%s]\n" % ",\n".join("  (%s, %s)" % (_ls(c), _ls(k)) for (c, k) in sorted(OUTSIDE)))
+    out.append("/-- required precision per written numeric slot (hand-written specification of harness/props/c12.py) -/")
+    out.append("def precisionReq : List PrecReq := [\n%s]\n" % ",\n".join(
+        "  { what := %s, ids := %s, need := %s }" % (_ls(d), ids(a, b, c), spec_lean(n)) for (d, a, b, c, n) in precision_requirements()))
     out.append("def readerOnly : List (Nat × Nat × List Nat) := [%s]\n" % ", ".join(ids(a, b, c) for a, b, c in READER_ONLY))
     out.append("/-- the string numbering used in `ids` -/\ndef strings : List String := %s\n" % _ll(strings))
     od = wntr.network.WaterNetworkModel().options.to_dict()
@@ -957,23 +1015,42 @@ def gen_schema_inp_lean(wntr, rows, kw):
 
 # ================================================================================================ precision of the file format (from the translator)
 
-def fmt_tolerance(fmt):
-    """(relative, absolute) error bound IN FILE UNITS of printing a float with `fmt` and parsing it again"""
+def fmt_spec(fmt):
+    """the format spec of a written slot as the translator found it -> ('fixed', k) | ('sig', n) | ('repr',) | ('int',) | ('text',).
+    THE one reading of format strings: emitted into Gen/SchemaInp.lean (`Row.spec`, proved bounds in Props/C12.lean) and used
+    by the oracle for its tolerance."""
+    if fmt == "repr":
+        return ("repr",)
     f = fmt.strip().lstrip("<>^")
-    m = re.match(r"^(\d*)(?:\.(\d+))?([gfeEGdsn]?)$", f)
-    if fmt == "repr" or not m:
-        return (0.0, 0.0) if fmt == "repr" else None
-    prec, typ = m.group(2), m.group(3)
+    m = re.match(r"^0?(\d*)(?:\.(\d+))?([gfeEGdsn]?)$", f)
+    if not m:
+        return ("text",)
+    width, prec, typ = m.group(1), m.group(2), m.group(3)
     if typ in ("g", "G"):
-        n = int(prec) if prec is not None else 6
-        return (0.5 * 10.0 ** (1 - max(n, 1)), 0.0)
-    if typ in ("f",):
-        n = int(prec) if prec is not None else 6
-        return (0.0, 0.5 * 10.0 ** (-n))
+        return ("sig", max(int(prec), 1) if prec is not None else 6)
+    if typ == "f":
+        return ("fixed", int(prec) if prec is not None else 6)
     if typ == "d":
+        return ("int",)
+    if typ == "" and prec is None and width == "":
+        return ("repr",)  # '{}'.format(float) is str(float): the shortest string that reads back to the same double
+    return ("text",)
+
+
+def spec_lean(sp):
+    return {"fixed": ".fixed %d", "sig": ".sig %d"}.get(sp[0], "." + sp[0]) % sp[1:] if sp[0] in ("fixed", "sig") else "." + sp[0]
+
+
+def fmt_tolerance(fmt):
+    """(relative, absolute) error bound IN FILE UNITS of printing a float with `fmt` and parsing it again -- the bounds
+    proved in Props/C12.lean for the same `Spec` (fix_error_bound, sig_error_bound; repr/int exact)"""
+    sp = fmt_spec(fmt)
+    if sp[0] == "sig":
+        return (0.5 * 10.0 ** (1 - sp[1]), 0.0)
+    if sp[0] == "fixed":
+        return (0.0, 0.5 * 10.0 ** (-sp[1]))
+    if sp[0] in ("repr", "int"):
         return (0.0, 0.0)
-    if typ in ("s", "") and prec is None:
-        return (0.0, 0.0)  # str(float) / '{}'.format(float): shortest repr, exact
     return None
 
 
@@ -1055,6 +1132,15 @@ def flatten_cond(c, p="IF"):
     if c[0] == "or":
         return flatten_cond(c[1], p) + flatten_cond(c[2], "OR")
     return [(p, c)]
+
+
+def cnf(c):
+    """the condition as the AND of OR-groups the [RULES] syntax can say (groups and atoms in writing order)"""
+    if c[0] == "and":
+        return cnf(c[1]) + cnf(c[2])
+    if c[0] == "or":
+        return [g1 + g2 for g1 in cnf(c[1]) for g2 in cnf(c[2])]
+    return [[c]]
 
 
 def cond_shape(c):
@@ -1308,14 +1394,22 @@ class Comparer:
                 continue
             x, y = r0[name], r2[name]
             p = "/rules/%s" % name
-            fx, fy = flatten_cond(x["cond"]), flatten_cond(y["cond"])
-            if [q for q, _ in fx] != [q for q, _ in fy]:
-                self.fail("rules-condition-changed", p + "/cond", x["cond"], y["cond"])
+            # a rule condition means an AND of OR-groups (no parentheses in [RULES]; EPANET reads `a AND b OR c` as a AND (b OR c)):
+            # the same condition = the same groups of the same atoms
+            gx, gy = cnf(x["cond"]), cnf(y["cond"])
+            if [len(g) for g in gx] != [len(g) for g in gy]:
+                fx, fy = flatten_cond(x["cond"]), flatten_cond(y["cond"])
+                if [a[:5] for _, a in fx] == [a[:5] for _, a in fy]:
+                    self.fail("rules-condition-mixed-and-or-regrouped", p + "/cond", x["cond"], y["cond"], "same clauses, other grouping: %s -> %s" % (
+                        [len(g) for g in gx], [len(g) for g in gy]))
+                else:
+                    self.fail("rules-condition-changed", p + "/cond", x["cond"], y["cond"])
             else:
-                if cond_shape(x["cond"]) != cond_shape(y["cond"]):
-                    self.fail("rules-condition-mixed-and-or-regrouped", p + "/cond", x["cond"], y["cond"], "same clauses, different tree")
-                for j, ((_, a), (_, b)) in enumerate(zip(fx, fy)):
-                    self.atom("rules", "%s/cond#%d" % (p, j), a, b, "IF")
+                j = 0
+                for ga, gb in zip(gx, gy):
+                    for a, b in zip(ga, gb):
+                        self.atom("rules", "%s/cond#%d" % (p, j), a, b, "IF")
+                        j += 1
             self.actions("rules", p + "/then", x["then"], y["then"], "THEN")
             self.actions("rules", p + "/else", x["else"], y["else"], "ELSE")
             x["priority"] == y["priority"] or self.fail("rules-priority-changed", p, x["priority"], y["priority"])
@@ -1631,7 +1725,40 @@ class C12(Check):
                                 "parse_rules_lines blocks of rule %s" % n))
             else:
                 out.append(("X", "rules=%d parsed=%d" % (len(rules), len(parsed)), "parse_rules_lines finds another number of rules"))
+        out += self._format_requests(sp)
         return [(a, b, "%s: %s" % (label, c)) for a, b, c in out]
+
+    def _format_requests(self, sp):
+        """number formats: the model's '{:.kf}' / '{:.ng}' on the exact rational of a double against Python's own formatting"""
+        from fractions import Fraction
+        vals = []
+
+        def walk(o):
+            if isinstance(o, float) and o == o and abs(o) < 1e12 and len(vals) < 200:
+                vals.append(o)
+            elif isinstance(o, dict):
+                for v in o.values():
+                    walk(v)
+            elif isinstance(o, list):
+                for v in o:
+                    walk(v)
+        walk(sp)
+        vals = sorted(set(vals), key=lambda v: (hash(repr(v)) % 1000, v))[:6]
+        vals += [-v / 86400.0 for v in vals[:2]] + [v * 448.831 for v in vals[:2]]
+        out = []
+        ks = sorted({sp_[1] for r in self.rows for sp_ in [fmt_spec(r["fmt"])] if r["dir"] == "w" and sp_[0] == "fixed"})
+        ns = sorted({sp_[1] for r in self.rows for sp_ in [fmt_spec(r["fmt"])] if r["dir"] == "w" and sp_[0] == "sig"})
+        for v in vals:
+            fr = Fraction(v)
+            x = "%d/%d" % (fr.numerator, fr.denominator)
+            for k in ks:
+                txt = format(v, ".%df" % k)
+                fb = Fraction(txt)
+                out.append(("F %d %s" % (k, x), "%s %d/%d" % (txt, fb.numerator, fb.denominator), "'{:.%df}'.format(%r)" % (k, v)))
+            for n in ns:
+                fb = Fraction(format(v, ".%dg" % n))
+                out.append(("G %d %s" % (n, x), "%d/%d" % (fb.numerator, fb.denominator), "'{:.%dg}'.format(%r)" % (n, v)))
+        return out
 
     def _text_correspondence(self, ctx, wntr, reqs):
         broken = []
